@@ -4,6 +4,21 @@
 BET_KINDS = ['MADD', 'MUPD', 'MRES', 'DEP', 'WDR', 'WAG', 'GRANT', 'END']
 BET_TRUST = ['betting-core model: coq/Model/{Types,Orderbook,Chain}.v transcribe x/market, x/orderbook, x/bet, x/house keepers and the authz contract used by house']
 PROPS = {
+  'C01': dict(profiles=[('bet', 120, 3000, 100), ('sub', 40, 800, 100)], monitors=['C01'], own_kinds=BET_KINDS, trusted=BET_TRUST,
+              assumes=['user accounts are never module accounts (address derivation); bank keeper modelled as a ledger']),
+  'C02': dict(profiles=[('bet', 150, 4000, 120)], monitors=['C02'], own_kinds=BET_KINDS, trusted=BET_TRUST,
+              assumes=['coverage is evaluated on the real state after every operation from bet and participation records']),
+  'C03': dict(profiles=[('bet', 120, 3000, 100), ('sub', 30, 600, 100)], kern=(20000, 400000), monitors=['C03', 'C03/C04'], own_kinds=BET_KINDS, trusted=BET_TRUST,
+              assumes=['promised winnings = floor((requested - fee) * (odds - 1)) computed by the monitor from the op itself']),
+  'C04': dict(profiles=[('bet', 120, 3000, 100), ('sub', 30, 600, 100)], monitors=['C04', 'C03/C04'], own_kinds=BET_KINDS, trusted=BET_TRUST, assumes=[]),
+  'C05': dict(profiles=[('bet', 120, 3000, 100), ('sub', 40, 800, 100), ('mint', 20, 300, 200)], monitors=['C05'], own_kinds=BET_KINDS, trusted=BET_TRUST,
+              batchvar=(8, 80),
+              assumes=['a recovered panic of BeginBlock/EndBlock in the harness stands for a chain halt']),
+  'C07': dict(profiles=[('bet', 120, 3000, 100)], monitors=['C07'], own_kinds=['MADD', 'MUPD', 'MRES', 'END'], trusted=BET_TRUST, assumes=[]),
+  'C08': dict(profiles=[('bet', 120, 3000, 100), ('sub', 30, 600, 100)], monitors=['C08'], own_kinds=['WAG', 'SWAG', 'END'], trusted=BET_TRUST, assumes=[]),
+  'C09': dict(profiles=[('bet', 120, 3000, 100), ('sub', 30, 600, 100)], monitors=['C09'], own_kinds=['DEP', 'WDR', 'GRANT', 'SDEP', 'SWDR'], trusted=BET_TRUST,
+              assumes=['SDK x/authz keeper contract (GetAuthorization/SaveGrant/DeleteGrant, pruning at BeginBlock) modelled and correspondence-checked']),
+  'C10': dict(profiles=[('bet', 150, 4000, 120)], monitors=['C10'], own_kinds=BET_KINDS, trusted=BET_TRUST, assumes=[]),
   'C06': dict(
     profiles=[('bet', 60, 1200, 80), ('sub', 40, 600, 80), ('ovm', 40, 600, 100)],
     monitors=['C06'], own_kinds=BET_KINDS + ['PROP', 'VOTE', 'SWAG', 'SDEP', 'SWDR'],
